@@ -1114,6 +1114,11 @@ func (s *vSim) randomRun(o simOpts) {
 		nInit = 3
 		voters = []uint64{1, 2, 3}
 	}
+	if o.scenarios && s.tid%32 == 31 {
+		scen = 10
+		nInit = 3
+		voters = []uint64{1, 2, 3}
+	}
 	if o.scenarios && s.tid%32 == 7 {
 		scen = 7
 		nInit = 3
@@ -1672,7 +1677,67 @@ func (s *vSim) scenario9() {
 	s.settle(2*int(s.et), nil, nil, nil, nil)
 }
 
+// scenario10 (three voters): a deposed leader holds a suffix that was never committed; the new
+// leader commits other entries at those indexes, takes a snapshot that covers them and compacts its
+// log. After the heal it can only send the snapshot. The old leader's log reaches the snapshot
+// index - with entries of another term: it must drop them and restore, not commit them.
+func (s *vSim) scenario10() {
+	s.settle(40, nil, nil, nil, func() bool { return s.leaderNode() != nil && s.leaderNode().applied >= 4 })
+	l := s.leaderNode()
+	if l == nil {
+		return
+	}
+	var b *vNode
+	for _, n := range s.upNodes() {
+		if n.id != l.id {
+			b = n
+			break
+		}
+	}
+	only := func(ids ...uint64) map[uint64]bool {
+		m := map[uint64]bool{}
+		for _, n := range s.upNodes() {
+			m[n.id] = true
+		}
+		for _, id := range ids {
+			delete(m, id)
+		}
+		return m
+	}
+	cutl := func(m pb.Message) bool { return m.From == l.id || m.To == l.id }
+	// the cut-off leader appends a suffix nobody else sees
+	for i := 0; i < 5+s.rng.Intn(2); i++ { // longer than what the new leader will have at its snapshot
+		s.nextVal++
+		s.propose(l, s.nextVal)
+		s.settle(1, cutl, nil, only(), nil)
+	}
+	// b is elected and commits at least as many entries with the third replica
+	s.settle(40, cutl, nil, only(b.id), func() bool { return b.peer.raft.state == leader })
+	if b.peer.raft.state != leader {
+		return
+	}
+	for i := 0; i < 2; i++ {
+		s.nextVal++
+		s.propose(b, s.nextVal)
+		s.settle(2, cutl, nil, only(b.id), nil)
+	}
+	// snapshot and compaction on the new leader, up to what it applied
+	if s.canSnapshot(b) {
+		s.snapshot(b)
+		if i := b.db.snapshot.Index; s.canCompact(b, i) {
+			s.compact(b, i)
+		}
+	}
+	// heal: the old leader can only be brought up to date by the snapshot
+	s.settle(3*int(s.et), nil, nil, only(b.id), nil)
+	s.settle(int(s.et), nil, nil, nil, nil)
+}
+
 func (s *vSim) scenario(k int, nextID uint64) uint64 {
+	if k == 10 {
+		s.scenario10()
+		return nextID
+	}
 	if k == 9 {
 		s.scenario9()
 		return nextID
